@@ -19,24 +19,13 @@ theorem val_is_char (b v : Nat) (h : Spec.b64Val? b = some v) : v < 64 ∧ b = S
     rw [if_neg (by omega), if_neg (by omega), if_neg (by omega), if_neg (by omega), if_neg (by omega)] at h
     cases h
 
-theorem bad_small : ∀ b, b < 123 → Spec.b64Val? b = none → b ≠ 61 →
-    base64GuardRejects b = true ∨
-      (base64GuardRejects b = false ∧ rdTable base64de (base64Index b) = .ok base64Invalid) := by
+/-- a byte that is neither `=` nor an alphabet character makes the generated per-byte tests reject -/
+theorem b64Byte_bad : ∀ b, b < 256 → Spec.b64Val? b = none → b ≠ 61 → b64Byte b = .ok .reject := by
   decide +kernel
 
-theorem bad_large (b : Nat) (hb : ¬ b < 123) : base64GuardRejects b = true := by
-  unfold base64GuardRejects
-  rw [decide_eq_true_iff]
-  omega
-
-theorem b64Loop_bad (b : Nat) (rest : List Nat) (i j : Nat) (out : List Nat)
+theorem b64Loop_bad (b : Nat) (rest : List Nat) (i j : Nat) (out : List Nat) (hb : b < 256)
     (h : Spec.b64Val? b = none) (hp : b ≠ 61) : b64Loop (b :: rest) i j out = .ok none := by
-  rw [b64Loop]
-  by_cases hb : b < 123
-  · rcases bad_small b hb h hp with hg | ⟨hg, ht⟩
-    · rw [if_pos hg]
-    · rw [hg, if_neg Bool.false_ne_true, ht, Res.bind_ok, if_pos rfl, if_neg (by rw [b64_pad_eq]; exact hp)]
-  · rw [if_pos (bad_large b hb)]
+  rw [b64Loop, b64Byte_bad b hb h hp, Res.bind_ok]
 
 theorem scan_pad (rest : List Nat) : Spec.b64Scan (61 :: rest) = some [] := by
   rw [Spec.b64Scan, if_pos rfl]
@@ -71,29 +60,34 @@ theorem b64_one (v0 : Nat) (rest : List Nat) (i j : Nat) (out : List Nat) (h0 : 
     b64Loop (Spec.b64Char v0 :: rest) i j out = b64Loop rest (i + 1) j (out.set j (b64Set0 v0)) := by
   rw [b64Loop_alpha _ _ _ _ _ h0, sw0 _ _ _ _ hi hj, Res.bind_ok]
 
-theorem b64_spec_gen (n : Nat) : ∀ (rest : List Nat), rest.length = 4 * n → ∀ (i j : Nat) (out : List Nat),
-    i % 4 = 0 → j + rest.length ≤ out.length →
+theorem b64_spec_gen (n : Nat) : ∀ (rest : List Nat), rest.length = 4 * n → (∀ b ∈ rest, b < 256) →
+    ∀ (i j : Nat) (out : List Nat), i % 4 = 0 → j + 3 * n ≤ out.length →
     (Spec.b64Scan rest = none ∧ b64Loop rest i j out = .ok none) ∨
     (∃ vs j' out', Spec.b64Scan rest = some vs ∧ b64Loop rest i j out = .ok (some (j', out')) ∧
       out'.take j' = out.take j ++ Spec.decodeVals vs) := by
   induction n with
   | zero =>
-    intro rest hlen i j out _ _
+    intro rest hlen _ i j out _ _
     have : rest = [] := List.eq_nil_of_length_eq_zero (by omega)
     subst this
     exact Or.inr ⟨[], j, out, rfl, rfl, by simp [Spec.decodeVals]⟩
   | succ n ih =>
-    intro rest hlen i j out hi hl
-    match rest, hlen, hl with
+    intro rest hlen hb i j out hi hl
+    match rest, hlen, hb with
     | [], h, _ => simp at h
     | [_], h, _ => simp at h; omega
     | [_, _], h, _ => simp at h; omega
     | [_, _, _], h, _ => simp at h; omega
-    | s0 :: s1 :: s2 :: s3 :: r, hlen, hl =>
-      simp only [List.length_cons] at hlen hl
+    | s0 :: s1 :: s2 :: s3 :: r, hlen, hb =>
+      simp only [List.length_cons] at hlen
+      have hb0 : s0 < 256 := hb s0 (by simp)
+      have hb1 : s1 < 256 := hb s1 (by simp)
+      have hb2 : s2 < 256 := hb s2 (by simp)
+      have hb3 : s3 < 256 := hb s3 (by simp)
+      have hbr : ∀ x ∈ r, x < 256 := fun x hx => hb x (by simp [hx])
       rcases sym_cases s0 with rfl | ⟨hn0, hp0⟩ | ⟨v0, hv0, hlt0, rfl, hp0⟩
       · exact Or.inr ⟨[], j, out, scan_pad _, b64Loop_pad _ _ _ _, by simp [Spec.decodeVals]⟩
-      · exact Or.inl ⟨scan_bad _ _ hn0 hp0, b64Loop_bad _ _ _ _ _ hn0 hp0⟩
+      · exact Or.inl ⟨scan_bad _ _ hn0 hp0, b64Loop_bad _ _ _ _ _ hb0 hn0 hp0⟩
       · rcases sym_cases s1 with rfl | ⟨hn1, hp1⟩ | ⟨v1, hv1, hlt1, rfl, hp1⟩
         · refine Or.inr ⟨[v0], j, out.set j (b64Set0 v0), ?_, ?_, ?_⟩
           · rw [scan_val _ _ _ hv0 hp0, scan_pad]; rfl
@@ -101,7 +95,7 @@ theorem b64_spec_gen (n : Nat) : ∀ (rest : List Nat), rest.length = 4 * n → 
           · rw [List.take_set_of_le (Nat.le_refl _)]; simp [Spec.decodeVals]
         · refine Or.inl ⟨?_, ?_⟩
           · rw [scan_val _ _ _ hv0 hp0, scan_bad _ _ hn1 hp1]; rfl
-          · rw [b64_one _ _ _ _ _ hlt0 hi (by omega), b64Loop_bad _ _ _ _ _ hn1 hp1]
+          · rw [b64_one _ _ _ _ _ hlt0 hi (by omega), b64Loop_bad _ _ _ _ _ hb1 hn1 hp1]
         · rcases sym_cases s2 with rfl | ⟨hn2, hp2⟩ | ⟨v2, hv2, hlt2, rfl, hp2⟩
           · refine Or.inr ⟨[v0, v1], j + 1, (out.set j (b64Set0 v0 ||| b64Or1 v1)).set (j + 1) (b64Set1 v1), ?_, ?_, ?_⟩
             · rw [scan_val _ _ _ hv0 hp0, scan_val _ _ _ hv1 hp1, scan_pad]; rfl
@@ -109,7 +103,7 @@ theorem b64_spec_gen (n : Nat) : ∀ (rest : List Nat), rest.length = 4 * n → 
             · rw [take1of2 _ _ _ _ (by omega), dv0 _ hlt0 _ hlt1]; simp [Spec.decodeVals]
           · refine Or.inl ⟨?_, ?_⟩
             · rw [scan_val _ _ _ hv0 hp0, scan_val _ _ _ hv1 hp1, scan_bad _ _ hn2 hp2]; rfl
-            · rw [b64_two _ _ _ _ _ _ hlt0 hlt1 hi (by omega), b64Loop_bad _ _ _ _ _ hn2 hp2]
+            · rw [b64_two _ _ _ _ _ _ hlt0 hlt1 hi (by omega), b64Loop_bad _ _ _ _ _ hb2 hn2 hp2]
           · rcases sym_cases s3 with rfl | ⟨hn3, hp3⟩ | ⟨v3, hv3, hlt3, rfl, hp3⟩
             · refine Or.inr ⟨[v0, v1, v2], j + 2, ((out.set j (b64Set0 v0 ||| b64Or1 v1)).set (j + 1)
                 (b64Set1 v1 ||| b64Or2 v2)).set (j + 2) (b64Set2 v2), ?_, ?_, ?_⟩
@@ -119,14 +113,14 @@ theorem b64_spec_gen (n : Nat) : ∀ (rest : List Nat), rest.length = 4 * n → 
             · refine Or.inl ⟨?_, ?_⟩
               · rw [scan_val _ _ _ hv0 hp0, scan_val _ _ _ hv1 hp1, scan_val _ _ _ hv2 hp2,
                   scan_bad _ _ hn3 hp3]; rfl
-              · rw [b64_three _ _ _ _ _ _ _ hlt0 hlt1 hlt2 hi (by omega), b64Loop_bad _ _ _ _ _ hn3 hp3]
+              · rw [b64_three _ _ _ _ _ _ _ hlt0 hlt1 hlt2 hi (by omega), b64Loop_bad _ _ _ _ _ hb3 hn3 hp3]
             · have hscan : Spec.b64Scan (Spec.b64Char v0 :: Spec.b64Char v1 :: Spec.b64Char v2 :: Spec.b64Char v3 :: r) =
                   (Spec.b64Scan r).map (fun vs => v0 :: v1 :: v2 :: v3 :: vs) := by
                 rw [scan_val _ _ _ hv0 hp0, scan_val _ _ _ hv1 hp1, scan_val _ _ _ hv2 hp2, scan_val _ _ _ hv3 hp3]
                 cases Spec.b64Scan r <;> rfl
               rw [hscan, b64_four _ _ _ _ _ _ _ _ hlt0 hlt1 hlt2 hlt3 hi (by omega),
                 dv0 _ hlt0 _ hlt1, dv1 _ hlt1 _ hlt2, dv2 _ hlt2 _ hlt3]
-              rcases ih r (by omega) (i + 4) (j + 3)
+              rcases ih r (by omega) hbr (i + 4) (j + 3)
                 (((out.set j (v0 * 4 + v1 / 16)).set (j + 1) (v1 % 16 * 16 + v2 / 4)).set (j + 2) (v2 % 4 * 64 + v3))
                 (by omega) (by simp only [List.length_set]; omega) with ⟨hs, hloop⟩ | ⟨vs, j', out', hs, hloop, htake⟩
               · exact Or.inl ⟨by rw [hs]; rfl, hloop⟩
@@ -135,14 +129,17 @@ theorem b64_spec_gen (n : Nat) : ∀ (rest : List Nat), rest.length = 4 * n → 
                 simp
 
 /-- `fromBase64` of EVERY byte string is `Spec.b64Decode` of it -/
-theorem fromBase64_spec (inp : List Nat) : fromBase64 inp = .ok (Spec.b64Decode inp) := by
+theorem fromBase64_spec (inp : List Nat) (hb : ∀ b ∈ inp, b < 256) :
+    fromBase64 inp = .ok (Spec.b64Decode inp) := by
   unfold fromBase64 Spec.b64Decode
-  rw [b64_mask_eq, and3]
+  rw [lenRejects_eq]
   by_cases hm : inp.length % 4 ≠ 0
-  · rw [if_pos hm, if_pos hm]
-  · rw [if_neg hm, if_neg hm]
+  · rw [if_pos (by simpa using hm), if_pos hm]
+  · rw [if_neg (by simpa using hm), if_neg hm]
     have h4 : inp.length = 4 * (inp.length / 4) := by omega
-    rcases b64_spec_gen (inp.length / 4) inp h4 0 0 (List.replicate inp.length 0) rfl (by simp) with
+    have hcap := reserve_enough inp.length (by omega)
+    rcases b64_spec_gen (inp.length / 4) inp h4 hb 0 0 (List.replicate (b64Reserve inp.length) 0) rfl
+        (by rw [List.length_replicate]; omega) with
       ⟨hs, hloop⟩ | ⟨vs, j', out', hs, hloop, htake⟩
     · rw [hloop, hs]; rfl
     · rw [hloop, hs, Res.bind_ok]
